@@ -34,3 +34,76 @@ Proof. exact bs_item_roundtrip. Qed.
 (* LZ4 chunks this encoder emits are valid blocks: the document-side decoder inflates them to the payload *)
 Theorem C04_lz4_literal_blocks : forall x, lz4_inflate (literal_only_block x) (N.of_nat (length x)) = Ok x.
 Proof. exact lz4_inflate_literal_only. Qed.
+
+(* ==== on the model of the REAL reader (BinFile.decode_prop; Proofs/BinChunkFacts.v, BinValuesFacts*.v): a PROP chunk that ends after
+   its name, or carries an unknown value-type id, leaves the decoder state unchanged — whatever follows; narrower numeric columns
+   are widened exactly *)
+From RbxVerif Require Import Utf8 Db CodecDom BinValues BinFile BinFileFacts BinValuesFacts BinValuesFacts2 BinChunkFacts.
+
+Theorem C04_decode_prop_skip_truncated :
+  forall (d : db) (p : dec_params) (st : dstate) (type_id : N) (pname : list N) (ti : dtinfo),
+       type_id < 2 ^ 32 ->
+       N.of_nat (Datatypes.length pname) < 2 ^ 32 ->
+       alloc_ok (dp_lim p) (N.of_nat (Datatypes.length pname)) = true ->
+       utf8_valid pname = true ->
+       lookup type_id (ds_types st) = Some ti -> decode_prop d p st (w_le32 type_id ++ w_bstr pname) = Ok st.
+Proof. exact decode_prop_skip_truncated. Qed.
+
+Theorem C04_decode_prop_skip_truncated_gen :
+  forall (d : db) (p : dec_params) (st : dstate) (chunk : bytes) (type_id : N) 
+         (pname : bytes) (ti : dtinfo),
+       prop_header (dp_lim p) chunk = Ok (type_id, pname, []) ->
+       lookup type_id (ds_types st) = Some ti -> decode_prop d p st chunk = Ok st.
+Proof. exact decode_prop_skip_truncated_gen. Qed.
+
+Theorem C04_decode_prop_skip_unknown_type :
+  forall (d : db) (p : dec_params) (st : dstate) (type_id : N) (pname : list N) 
+         (ti : dtinfo) (byte : N) (tail : list N),
+       type_id < 2 ^ 32 ->
+       N.of_nat (Datatypes.length pname) < 2 ^ 32 ->
+       alloc_ok (dp_lim p) (N.of_nat (Datatypes.length pname)) = true ->
+       utf8_valid pname = true ->
+       lookup type_id (ds_types st) = Some ti ->
+       wire_of_id byte = None ->
+       decode_prop d p st (w_le32 type_id ++ w_bstr pname ++ w_u8 byte ++ tail) = Ok st.
+Proof. exact decode_prop_skip_unknown_type. Qed.
+
+Theorem C04_decode_prop_skip_unknown_type_gen :
+  forall (d : db) (p : dec_params) (st : dstate) (chunk : bytes) (type_id : N) 
+         (pname : bytes) (ti : dtinfo) (byte : N) (tail : list N),
+       prop_header (dp_lim p) chunk = Ok (type_id, pname, byte :: tail) ->
+       lookup type_id (ds_types st) = Some ti -> wire_of_id byte = None -> decode_prop d p st chunk = Ok st.
+Proof. exact decode_prop_skip_unknown_type_gen. Qed.
+
+Theorem C04_decode_prop_unknown_type_id :
+  forall (d : db) (p : dec_params) (st : dstate) (chunk : bytes) (type_id : N) (pname chunk1 : bytes),
+       prop_header (dp_lim p) chunk = Ok (type_id, pname, chunk1) ->
+       lookup type_id (ds_types st) = None -> decode_prop d p st chunk = Err E_TYPE_ID.
+Proof. exact decode_prop_unknown_type_id. Qed.
+
+Theorem C04_col_widen_int32_int64 :
+  forall (c : enc_ctx) (dc : dec_ctx) (zs : list Z) (rest : list N),
+       Forall (fun z : Z => in_i32 z = true) zs ->
+       exists b : bytes,
+         enc_col WInt32 c (List.map VInt32 zs) = Ok b /\
+         dec_col WInt32 VT_Int64 dc (Datatypes.length zs) (b ++ rest) = Ok (List.map VInt64 zs, rest).
+Proof. exact col_widen_int32_int64. Qed.
+
+Theorem C04_col_widen_float32_float64 :
+  forall (c : enc_ctx) (dc : dec_ctx) (xs : list f32) (rest : list N),
+       Forall (fun x : f32 => f32_ok x = true) xs ->
+       exists b : bytes,
+         enc_col WFloat32 c (List.map VFloat32 xs) = Ok b /\
+         dec_col WFloat32 VT_Float64 dc (Datatypes.length xs) (b ++ rest) =
+         Ok (List.map (fun x : f32 => VFloat64 (f64_of_f32 x)) xs, rest).
+Proof. exact col_widen_float32_float64. Qed.
+
+Theorem C04_col_widen_float32_in_float64_column :
+  forall (c : enc_ctx) (dc : dec_ctx) (xs : list f32) (rest : list N),
+       Forall (fun x : f32 => f32_ok x = true) xs ->
+       exists b : bytes,
+         enc_col WFloat64 c (List.map VFloat32 xs) = Ok b /\
+         dec_col WFloat64 VT_Float64 dc (Datatypes.length xs) (b ++ rest) =
+         Ok (List.map (fun x : f32 => VFloat64 (f64_of_f32 x)) xs, rest).
+Proof. exact col_widen_float32_in_float64_column. Qed.
+
